@@ -14,7 +14,7 @@ PROPERTY = "C10"
 LEVEL = "model_checking"
 TECHNIQUE = "explicit-state bounded-exhaustive exploration of real descriptor-driven disks against a concatenation model"
 RULE = ("VMDK descriptors with 1-3 extents: every kind in {FLAT, VMFS, SPARSE, VMFSSPARSE, SESPARSE} x size in "
-        "{16, 24, 40, 4104} sectors x access {RW, RDONLY} x file name {plain, spaces, inner quote, non-ASCII, emoji} (full "
+        "{16, 24, 40, 4104, 20} sectors x access {RW, RDONLY} x file name {plain, spaces, inner quote, non-ASCII, emoji} (full "
         "product for <= 2 extents, every kind triple for 3); VMDK([handles]) with 1-3 sparse/raw handles; Parallels "
         "file names with 14 characters special to str.splitlines / str.strip; flat extents whose data begins with a complete "
         "hosted / COWD / SE-sparse header (nested image); descriptors with 1-3 storages {Plain, Compressed} in every XML order; flat files carry trailing slack beyond the "
@@ -33,7 +33,7 @@ BOUND = {"quick": "<= 3 extents / storages, buffers {512, 8192}", "thorough": "s
 EXPECT_OUTCOMES = ["vmdk-descriptor", "vmdk-handles", "hdd-storages"]
 
 KINDS = ["FLAT", "VMFS", "SPARSE", "VMFSSPARSE", "SESPARSE"]
-SIZES = [16, 24, 40, 4104]
+SIZES = [16, 24, 40, 4104, 20]  # 20: not a multiple of the grain size, what follows starts inside a grain-sized unit
 NAMES = ["plain", "with space", 'in"ner', "ünï-cödé", "emoji-\U0001F4BE", "size=small & id#4"]
 # characters that are ordinary in POSIX file names but special to some text routine (str.splitlines, str.strip, ...)
 ODD_NAMES = ["my old disk" + ch + "copy" for ch in ("\x0b", "\x0c", "\x1c", "\x1d", "\x1e", "\x85", "\u2028", "\u2029",
